@@ -218,7 +218,18 @@ def run_stream(res, work, tier, seed):
     if tier != "quick":
         longs += [_long([131072 + sh]) for sh in (-1, 0, -2)] + [_long([3000 + sh, 4096 + sh, 65536 + sh, 131072 + sh]) for sh in (0, -2)]
         longs += [_long([4095, 4097 + 65535]), _long([65534, 65536 + 65536])]
+    # ... and logs of valid records whose delimiter lands there: a record of encoded size 65535 (payload 65530) +- 2, a small record
+    longs_r = []
+    for plen in ((65528, 65529, 65530, 65531, 65532) if tier != "quick" else (65529, 65530, 65531)):
+        rec = _enc_simple([(i * 5 + 1) % 251 for i in range(plen)])
+        longs_r.append(rec + [FE, FD] + _enc_simple([97, 98, 99]) + [FE, FD] + rec[:300])
     n_long = 0
+    for st in longs_r:
+        for block in ((-1, 131072) if tier == "quick" else (-1, 65536, 65537, 131072, 1 << 20)):
+            for sched in ([], [3000]):
+                rid += 1
+                runs.append({"run": rid, "cfg": {"kind": "reader", "stream": st, "block": block, "sched": sched,
+                                                 "max": rng.choice([-1, 70000]), "limit": -1}, "ops": []})
     for st in longs:
         for block in ([65536, -1, 131072] if tier == "quick" else [4096, 65536, 65537, 131072, -1, 1 << 20]):
             scheds = [[], [3000], [65536], [65535, 0, 1], [4096, 0]]
